@@ -41,8 +41,11 @@ import (
 
 func init() { hx.Register("C41", Run) }
 
+// future is the end of validity of admin-assigned tokens, read from auth.go at start (default: the
+// value of the unchanged tree).
+var future = uint32(4102488000)
+
 const (
-	future   = uint32(4102488000) // checked against Gen/AuthConsts.v's source expression at start
 	maxU32   = uint64(1)<<32 - 1
 	nIDs     = 7
 	resTrue  = "RTrue"
@@ -261,13 +264,14 @@ func (s *cspec) liveStrict(id, r string, now uint64) bool {
 }
 
 type runner struct {
-	w     *world
-	c     *hx.Ctx
-	caddr [2]common.Address
-	spec  [2]*cspec
-	steps []string
-	stats map[string]int
+	w       *world
+	c       *hx.Ctx
+	caddr   [2]common.Address
+	spec    [2]*cspec
+	steps   []string
+	stats   map[string]int
 	lastRes string
+	want    map[string]bool
 	// for the generator
 	expiries []uint64
 }
@@ -416,31 +420,32 @@ func (r *runner) fullDump() []string {
 	return obs
 }
 
-// scanKeys checks that every record under the auth contract's prefix is one the pools explain.
+// scanKeys checks that every record under the auth contract's own prefix is one that the pools and
+// the contracts of this run explain (all histories share the store, so the expected set grows).
 func (r *runner) scanKeys(h *history) {
-	want := map[string]bool{}
+	if r.want == nil {
+		r.want = map[string]bool{}
+	}
 	for ci := 0; ci < 2; ci++ {
-		want[string(authKey(r.caddr[ci], 0x01, nil))] = true
+		r.want[string(authKey(r.caddr[ci], 0x01, nil))] = true
 		for _, ro := range r.w.roles {
-			want[string(authKey(r.caddr[ci], 0x02, ro))] = true
+			r.want[string(authKey(r.caddr[ci], 0x02, ro))] = true
 		}
 		for _, id := range r.w.ids {
-			want[string(authKey(r.caddr[ci], 0x03, id.id))] = true
-			want[string(authKey(r.caddr[ci], 0x04, id.id))] = true
+			r.want[string(authKey(r.caddr[ci], 0x03, id.id))] = true
+			r.want[string(authKey(r.caddr[ci], 0x04, id.id))] = true
 		}
 	}
 	cache := storage.NewCacheDB(r.w.overlay)
-	for ci := 0; ci < 2; ci++ {
-		prefix := append(append([]byte{}, utils.AuthContractAddress[:]...), r.caddr[ci][:]...)
-		it := cache.NewIterator(prefix)
-		for ok := it.First(); ok; ok = it.Next() {
-			k := it.Key()
-			if !want[string(k)] {
-				r.c.Fail("storage:unexpected-key", "a record was written under a key no operation of the history addresses", h, hx.Hex(k), nil)
-			}
+	it := cache.NewIterator(utils.AuthContractAddress[:])
+	for ok := it.First(); ok; ok = it.Next() {
+		k := it.Key()
+		if !r.want[string(k)] {
+			r.c.Fail("storage:unexpected-key", "a record was written under a key no operation of the run addresses (contract, family, role/id)", h, hx.Hex(k), nil)
+			r.want[string(k)] = true
 		}
-		it.Release()
 	}
+	it.Release()
 }
 
 // ---- one operation
@@ -816,6 +821,11 @@ func (r *runner) verifyResults(h *history) []string {
 
 func Run(c *hx.Ctx) {
 	c.CoqModule("Corr.C41")
+	if v, err := futureFromSource(c.Repo); err == nil {
+		future = v
+	} else {
+		c.Note("could not read the admin-token expiry from auth.go (" + err.Error() + "); using 2100-01-01 12:00 UTC")
+	}
 	w := newWorld(c)
 	for i, id := range w.ids {
 		c.CoqHeader(fmt.Sprintf("Definition i%d : bytes := %s.", i, hx.CoqBytes(id.id)))
